@@ -8,6 +8,9 @@ import sys
 sys.path.insert(0, os.path.join(os.path.dirname(os.path.abspath(__file__)), "..", "gen"))
 import dnsgen as G
 import textgen as T
+import hist as H
+import copy
+import json
 
 
 def hx(b):
@@ -47,8 +50,18 @@ class Prop:
             for i, l in enumerate(open(p)):
                 l = l.rstrip("\n")
                 if l and not l.startswith("#"):
-                    out.append(Case("corpus-%d" % i, l, {"family": "corpus"}))
+                    meta = {"family": "corpus"}
+                    meta.update(self.corpus_meta(l))
+                    out.append(Case("corpus-%d" % i, l, meta))
         return out
+
+    def corpus_meta(self, line):
+        """Rebuild the metadata the oracle needs from a bare corpus line."""
+        first = line.split("\t")[0].split(",")
+        if first[0] == "P" and len(first) > 1:
+            b = first[1] if first[1] != "-" else ""
+            return {"pkt": b, "len": len(b) // 2}
+        return {}
 
     def gen(self, rng, tier):
         return []
@@ -70,6 +83,12 @@ class Prop:
 
     def shrink(self, case, still_fails):
         return case
+
+    def meta_to_json(self, meta):
+        return meta
+
+    def meta_from_json(self, meta):
+        return meta
 
 
 def no_crash(io):
@@ -958,4 +977,459 @@ class C14(Prop):
         return [io[0][:3]] if io else ["noout"]
 
 
-REGISTRY = {"C01": C01, "C18": C18, "C12": C12, "C03": C03, "C04": C04, "C05": C05, "C13": C13, "C14": C14}
+def known_classes(pid):
+    p = os.path.join(os.path.dirname(os.path.abspath(__file__)), "..", "known_findings.json")
+    try:
+        return set(f["class"] for f in json.load(open(p)).get("findings", []) if f["property"] == pid)
+    except Exception:
+        return set()
+
+
+def big_plain_packet(rng, size):
+    """A pointer-free response of roughly `size` bytes (TXT records), for the size-limit clauses."""
+    q = [b"big", b"example"]
+    recs = []
+    n = 0
+    while n < size:
+        k = min(255, max(1, size - n))
+        recs.append(G.RR(q, 16, 1, 5, ("raw", bytes([k - 1]) + bytes(rng.randint(97, 122) for _ in range(k - 1)) if k > 1 else b"\0")))
+        n += 11 + 13 + k
+    b, _ = G.encode(rng, G.Msg(5, 0x8180, q, 16, 1, an=recs), "none")
+    return b
+
+
+class HistProp(Prop):
+    """Shared machinery of C08-C11: histories with an abstract message model (gen/hist.py)."""
+    clauses = set()
+    assumptions = ["bytes < 256", "cursor operations are issued on live cursors of the section they were created for (Rust borrow rules)",
+                   "set_raw_name / TTL writes are not applied to the OPT pseudo-record except in the known-finding family"]
+
+    def base(self, rng, kind=None):
+        """(first op, abstract message, flags)"""
+        kind = kind or rng.choice(["parsed"] * 7 + ["query", "query", "empty-q", "empty"])
+        if kind == "parsed":
+            while True:
+                b, _, _ = G.rand_valid_packet(rng, max_rr=rng.choice([1, 2, 3, 5]))
+                a = H.decode_bytes(b)
+                if a is not None:
+                    return "P," + hx(b), a, set()
+        if kind == "query":
+            labels = T.rand_hostname(rng)
+            nm = T.dotted(labels, rng.random() < 0.5)
+            a = H.AMsg()
+            tid = rng.randint(0, 65535)
+            a.tid, a.flags, a.q = tid, 0x0100, (labels, 28, 1)
+            return "Q,%s,28,%d" % (hx(nm), tid), a, set()
+        a = H.AMsg()
+        tid = rng.randint(0, 65535)
+        a.tid, a.flags = tid, 0x0100
+        return "E,%d" % tid, a, set(["no-question"])
+
+    def finish(self, i, first, bld, fam):
+        return Case("h%d" % i, bld.line(first), {"family": fam, "steps": bld.steps, "a0": None})
+
+    def meta_to_json(self, meta):
+        m = dict(meta)
+        m["steps"] = [{"op": s.op, "kind": s.kind, "expect_out": s.expect_out, "expect_err": s.expect_err,
+                       "expect_msg": (s.expect_msg.wire().hex() if s.expect_msg is not None else None), "note": s.note} for s in meta.get("steps", [])]
+        return m
+
+    def meta_from_json(self, meta):
+        m = dict(meta)
+        steps = []
+        for d in meta.get("steps", []):
+            em = H.decode_lenient(bytes.fromhex(d["expect_msg"])) if d.get("expect_msg") else None
+            steps.append(H.Step(d["op"], d["kind"], d.get("expect_out"), em, d.get("expect_err"), d.get("note")))
+        m["steps"] = steps
+        return m
+
+    def shrink(self, case, still_fails):
+        """Drop trailing steps while the failure persists."""
+        steps = case.meta["steps"]
+        ops = case.line.split("\t")
+        best = case
+        for n in range(1, len(steps)):
+            c2 = Case(case.id, "\t".join(ops[:5 + 5 * n]), dict(case.meta, steps=steps[:n]))
+            try:
+                if still_fails(c2):
+                    return c2
+            except Exception:
+                pass
+        return best
+
+    @staticmethod
+    def match_walk(exp, got):
+        """exp: list of per-yield token lists (None = wildcard token); got: observation string."""
+        if not got.startswith("W[") or not got.endswith("]"):
+            return False
+        toks = got[2:-1].split(" ") if len(got) > 3 else []
+        flat = [t for y in exp for t in y]
+        if len(toks) != len(flat):
+            return False
+        for e, g in zip(flat, toks):
+            if e is None:
+                continue
+            if e.endswith("=ERR") and g.startswith(e):
+                continue
+            if e != g:
+                return False
+        return True
+
+    def step_failures(self, case, io):
+        """All failures of this history as (class, text)."""
+        fails = []
+        steps = case.meta["steps"]
+        if io is None or len(io) < 5:
+            return fails
+        prev_b = io[4][2:] if io[4].startswith("b=") else None
+        if io[0].startswith("ERR") or io[0] == "NOOBJ":
+            return fails
+        if "view" in self.clauses:
+            self.check_state(fails, "initial object", io[1], io[2], io[3], prev_b)
+        for k, st in enumerate(steps):
+            base = 5 + 5 * k
+            if len(io) < base + 5:
+                break
+            o, v, fp, ca, b = io[base:base + 5]
+            b1 = b[2:]
+            a0 = H.decode_lenient(bytes.fromhex(prev_b)) if prev_b and prev_b != "-" else None
+            a1 = H.decode_lenient(bytes.fromhex(b1)) if b1 != "-" else None
+            what = "step %d (%s: %s)" % (k, st.kind, st.op[:80])
+            is_err = o.startswith("ERR")
+            # --- outcome of the operation itself
+            if st.expect_err is not None:
+                if "err" in self.clauses:
+                    if not is_err:
+                        fails.append(("expected-error", "%s was accepted but must fail" % what))
+                    elif st.expect_err != "any" and o != "ERR:" + st.expect_err:
+                        fails.append(("error-kind", "%s failed with %s, expected %s" % (what, o, st.expect_err)))
+            elif st.kind == "getter":
+                exp = st.note.get("ci") if hasattr(st, "note") and st.note else None
+                if exp is not None and ("view" in self.clauses or "effect" in self.clauses) and o.lower() != exp.lower():
+                    fails.append(("getter", "%s returned %s, the bytes say %s" % (what, o[:160], exp[:160])))
+            elif isinstance(st.expect_out, str):
+                if "effect" in self.clauses and o != st.expect_out:
+                    fails.append(("outcome", "%s returned %s, expected %s" % (what, o[:120], st.expect_out)))
+            elif isinstance(st.expect_out, list):
+                if ("walk" in self.clauses or "effect" in self.clauses) and not self.match_walk(st.expect_out, o):
+                    fails.append(("walk", "%s yielded %s; the abstract walk expects %s" % (
+                        what, o[:400], " ".join(str(t) for y in st.expect_out for t in y)[:400])))
+            # --- effect on the decoded message
+            if is_err or o == "PANIC":
+                if "err" in self.clauses and is_err and a0 is not None:
+                    if a1 is None or a1.key() != a0.key():
+                        fails.append(("failed-op-changed-message", "%s reported %s but the packet no longer decodes to the same message" % (what, o)))
+            elif st.expect_msg is not None and "effect" in self.clauses:
+                if a1 is None:
+                    fails.append(("effect", "%s: the resulting bytes do not decode to any message" % what))
+                elif a1.key() != st.expect_msg.key():
+                    fails.append(("effect", "%s: the decoded message differs from the abstract effect of the operation" % what))
+            if "size" in self.clauses and st.kind in ("insert", "insert-too-large") and not is_err and len(b1) // 2 > 8192:
+                fails.append(("size-limit", "%s produced a packet of %d bytes (> 8192)" % (what, len(b1) // 2)))
+            if "view" in self.clauses or ("err" in self.clauses and is_err):
+                self.check_state(fails, "after " + what, v, fp, ca, b1)
+            prev_b = b1
+        return fails
+
+    @staticmethod
+    def reject_class(bhex):
+        """Known-finding classes of states no parse can accept, recognised from the bytes themselves."""
+        if bhex in (None, "-") or len(bhex) < 24:
+            return None
+        b = bytes.fromhex(bhex)
+        qd, an, ns = (b[4] << 8) | b[5], (b[6] << 8) | b[7], (b[8] << 8) | b[9]
+        if qd == 0:
+            return "no-question"
+        if not (b[2] & 0x80) and (an or ns):
+            return "qr-gating"
+        return None
+
+    def check_state(self, fails, where, v, fp, ca, bhex):
+        """C08: the object's view equals a fresh parse of its bytes."""
+        if not v.startswith("v["):
+            return
+        if fp.startswith("fp[ERR"):
+            cls = self.reject_class(bhex)
+            if cls:
+                a = H.decode_lenient(bytes.fromhex(bhex))
+                if a is not None:
+                    fails.append((cls, "%s: bytes are not accepted by the parser (%s)" % (where, fp)))
+                    return
+            fails.append(("not-accepted", "%s: the packet's bytes are rejected by the parser: %s" % (where, fp)))
+            return
+        vv = dict(x.split("=") for x in v[2:-1].split(" "))
+        ff = dict(x.split("=") for x in fp[3:-1].split(" "))
+        for k in ("q", "an", "ns", "ar", "ed", "ec", "rc", "ver", "xf"):
+            if vv.get(k) != ff.get(k):
+                cls = "view"
+                if k in ("rc", "ver", "xf") and all(vv.get(j) == ff.get(j) for j in ("q", "an", "ns", "ar", "ed", "ec")):
+                    cls = "opt-ttl"
+                fails.append((cls, "%s: object says %s=%s, a fresh parse of its bytes says %s" % (where, k, vv.get(k), ff.get(k))))
+                return
+        b = bytes.fromhex(bhex)
+        a = H.decode_bytes(b)
+        if a is None:
+            return
+        if ca != "ca=-":
+            wn = G.wire_name(a.q[0])
+            exp = "ca=%s/%d/%d" % (hx(wn), a.q[1], a.q[2])
+            if ca.lower() != exp.lower():
+                fails.append(("stale-cache", "%s: cached question %s, the bytes say %s" % (where, ca, exp)))
+                return
+        if vv.get("mc") == "0" and a.wire() != b:
+            fails.append(("flag-unsound", "%s: maybe_compressed is false but the bytes are not in pointer-free form" % where))
+
+    def oracle(self, case, io):
+        w = no_crash(io)
+        if w:
+            return "[crash] " + w + " at op %d" % (len(io) - 1 if io else -1)
+        fails = self.step_failures(case, io)
+        if not fails:
+            return None
+        known = known_classes(self.id)
+        for cls, txt in fails:
+            if cls not in known:
+                return "[%s] %s" % (cls, txt)
+        return "[%s] %s" % fails[0]
+
+    def classify(self, case, why):
+        if why.startswith("["):
+            return why[1:why.index("]")]
+        return "divergence-unclassified"
+
+    def tags(self, case, io):
+        t = []
+        for st in case.meta["steps"]:
+            t.append(st.kind)
+        return t[:8]
+
+    def nontrivial(self, case, io):
+        return hash(case.line) if case.meta["steps"] else None
+
+    def random_step(self, rng, bld, weights):
+        k = rng.choices(list(weights), weights=list(weights.values()))[0]
+        if k == "header":
+            bld.header_op()
+        elif k == "insert":
+            bld.insert_op()
+        elif k == "insert-bad":
+            bld.insert_op(bad=True)
+        elif k == "iq":
+            bld.second_question_op()
+        elif k == "rename":
+            bld.rename_op()
+        elif k == "rename-overflow":
+            bld.rename_op(overflow=True)
+        elif k == "recompute":
+            bld.recompute_op()
+        elif k == "getter":
+            bld.getter_op()
+        elif k == "walk":
+            bld.walk_op(mode="mixed")
+        elif k == "walk-read":
+            bld.walk_op(mode="read")
+        elif k == "qwalk":
+            bld.question_walk_op(rng.choice(["read", "M", "M"]))
+        elif k == "qdelete":
+            bld.question_walk_op("X")
+        elif k == "qr-break":
+            if bld.a.secs[0] or bld.a.secs[1]:
+                bld.qr_break_op()
+            else:
+                bld.header_op()
+        elif k == "opt-ttl":
+            if bld.a.opt() is not None:
+                bld.opt_ttl_op()
+            else:
+                bld.walk_op(mode="read")
+
+
+W_GENERAL = {"header": 3, "insert": 4, "iq": 1, "rename": 2, "recompute": 1, "walk": 6, "walk-read": 1, "qwalk": 3, "getter": 3}
+
+
+class C08(HistProp):
+    id = "C08"
+    clauses = {"view"}
+    rule = ("histories of 1-6 operations (header setters, insert_rr_from_string in any section, RR::new_question insert, rename, recompute, "
+            "walks with set_rr_ttl / set_rr_ip / set_raw_name growing-shrinking-equal / delete / cursor uncompress / reads at every record "
+            "position, question walks with set_raw_name) on parsed packets (compressed or not, with/without OPT), gen::query objects and "
+            "ParsedPacket::empty; after EVERY step the object's view, a fresh parse of its bytes, the cached question and the bytes are "
+            "observed. Plus dedicated families for the three known-finding classes. Non-trivial: history has a mutating step; distinct = "
+            "distinct history.")
+    strength = ("PARTIAL: the mutation model (coq/Model/Mutate.v, Walk.v) is executable and tied to the implementation step by step; proved "
+                "so far are frame/shape lemmas (C08_insert_shape: a successful insert splices exactly the record at the insertion offset and "
+                "bumps exactly one count; C08_header_setters_keep_view). The invariant 'view = fresh parse after any history' "
+                "(C08_full_statement) is decided each run by the correspondence plus the fresh-parse oracle on every step of every history.")
+
+    def gen(self, rng, tier):
+        n = 500 if tier == "quick" else 12000
+        cases = []
+        for i in range(n):
+            first, a, flags = self.base(rng)
+            bld = H.Builder(rng, a, flags)
+            fam = "general"
+            r = rng.random()
+            nsteps = rng.randint(1, 6)
+            if first.startswith("E,") and rng.random() < 0.7:
+                bld.second_question_op()
+            for _ in range(nsteps):
+                self.random_step(rng, bld, W_GENERAL)
+            if r < 0.04:
+                self.random_step(rng, bld, {"qdelete": 1})
+                fam = "class-no-question"
+            elif r < 0.08:
+                bld.flags.add("allow-qr-gating")
+                self.random_step(rng, bld, {"qr-break": 1, "insert": 1})
+                fam = "class-qr-gating"
+            elif r < 0.12:
+                self.random_step(rng, bld, {"opt-ttl": 1})
+                fam = "class-opt-ttl"
+            cases.append(self.finish(i, first, bld, fam))
+        return cases
+
+
+class C09(HistProp):
+    id = "C09"
+    clauses = {"effect", "walk"}
+    rule = ("as C08's histories, but the oracle is the abstract message model: before and after every operation the bytes are decoded "
+            "independently and compared (names case-insensitively) with the abstract effect - set name replaces only that owner name, delete "
+            "removes only that record and lowers only its count, insert appends at the end of the chosen section, TTL/address setters change "
+            "only that field; every other record, their order, header fields and EDNS data stay equal; the observations of each walk (which "
+            "record a cursor designates before and after each action) must match the abstract walk. Non-trivial/distinct as C08.")
+    strength = ("PARTIAL: proved lemmas: C09_insert_appends (bytes after a successful insert = bytes before with the record spliced at the "
+                "end of the section, one count incremented), C09_set_ttl_frame (only 4 bytes change). The refinement of every operation to "
+                "the abstract message operations (C09_full_statement) is decided each run by the correspondence and the abstract-effect oracle.")
+
+    def gen(self, rng, tier):
+        n = 500 if tier == "quick" else 12000
+        cases = []
+        for i in range(n):
+            first, a, flags = self.base(rng, kind=rng.choice(["parsed"] * 8 + ["query", "empty-q"]))
+            bld = H.Builder(rng, a, flags)
+            if first.startswith("E,"):
+                bld.second_question_op()
+            for _ in range(rng.randint(1, 4)):
+                self.random_step(rng, bld, {"header": 2, "insert": 4, "rename": 2, "walk": 8, "qwalk": 3, "recompute": 1, "getter": 3})
+            cases.append(self.finish(i, first, bld, "effects"))
+        return cases
+
+
+class C10(HistProp):
+    id = "C10"
+    clauses = {"err", "size"}
+    rule = ("error-provoking histories: second question, malformed record text (field-wise damaged), invalid / over-long / pointer-bearing "
+            "names given to set_raw_name, operations on a deleted record's cursor, renames that overflow 255 bytes, inserts into packets of "
+            "8100-9500 bytes and >65535 bytes (quick: up to 9500), at any point of a history; after every failing call the decoded message "
+            "must equal the one before the call and the object must still match a fresh parse; no successful insert may exceed 8192 bytes. "
+            "Non-trivial: history contains a failing call; distinct = distinct history.")
+    strength = ("PARTIAL: proved: C10_insert_bound (a successful insert never yields more than 8192 bytes, whatever the starting length, and "
+                "the size test cannot underflow) and C10_insert_count_before_bytes (when the count check fails no byte has moved). Atomicity "
+                "of every failing operation (C10_full_statement) is decided each run by the correspondence and the before/after oracle.")
+
+    def gen(self, rng, tier):
+        n = 400 if tier == "quick" else 10000
+        cases = []
+        for i in range(n):
+            first, a, flags = self.base(rng, kind=rng.choice(["parsed"] * 8 + ["query"]))
+            bld = H.Builder(rng, a, flags)
+            for _ in range(rng.randint(1, 5)):
+                self.random_step(rng, bld, {"insert-bad": 4, "iq": 3, "rename-overflow": 2, "walk": 6, "insert": 2, "header": 1, "rename": 1})
+            cases.append(self.finish(i, first, bld, "errors"))
+        sizes = [8100, 8150, 8180, 8190, 8200, 8500, 9500] if tier == "quick" else [8100, 8150, 8170, 8180, 8185, 8190, 8192, 8200, 8500, 9500, 20000, 66000]
+        k = len(cases)
+        for sz in sizes:
+            for rep in range(3 if tier == "quick" else 8):
+                b = big_plain_packet(rng, sz)
+                a = H.decode_bytes(b)
+                if a is None:
+                    continue
+                bld = H.Builder(rng, a, set())
+                for _ in range(3):
+                    bld.insert_op()
+                cases.append(self.finish(k, "P," + hx(b), bld, "size-limit"))
+                k += 1
+        return cases
+
+    def nontrivial(self, case, io):
+        return hash(case.line) if any(s.expect_err for s in case.meta["steps"]) or case.meta["family"] == "size-limit" else None
+
+
+class C11(HistProp):
+    id = "C11"
+    clauses = {"walk", "effect", "view"}
+    rule = ("deletion walks: sections of 0..8 uniquely named records (quick: sizes 0..5 with ALL subsets, larger sizes sampled; thorough: all "
+            "subsets for every size 0..8), each of the three record sections and the question, compressed and pointer-free packets, with and "
+            "without OPT; at every yielded record chosen for deletion: delete, delete again (must report a void record and change nothing), "
+            "read the tombstone's offsets; the yielded sequence must equal the abstract walk (restart from the section start after a "
+            "deletion), the final section must hold exactly the survivors in order with a matching count, an emptied section reads as absent. "
+            "Non-trivial: at least one deletion; distinct = distinct (packet, section, subset).")
+    strength = ("proved (unbounded, abstract machine): for every section and every set of records chosen for deletion the walk with restart-after-"
+                "delete terminates within (|D|+1)(n+1) yields, never yields a deleted record again, yields every survivor at least once and "
+                "leaves exactly the survivors in order (C11_walk_terminates, C11_walk_exact). PARTIAL: that the concrete cursor code refines "
+                "this machine is decided each run by the correspondence over all subsets of small sections.")
+
+    def gen(self, rng, tier):
+        import itertools
+        cases = []
+        k = 0
+        maxn = 5 if tier == "quick" else 8
+        for n in range(0, 9):
+            subsets = list(itertools.chain.from_iterable(itertools.combinations(range(n), r) for r in range(n + 1)))
+            if n > maxn:
+                subsets = rng.sample(subsets, 24)
+            for sub in subsets:
+                si = rng.randrange(3)
+                layout = rng.choice(["none", "greedy", "chain"])
+                q = [b"zone", b"example"]
+                recs = []
+                for j in range(n):
+                    t = rng.choice([1, 1, 28, 2, 15, 16])
+                    name = [b"r%d" % j] + q
+                    if t == 1:
+                        rd = ("raw", bytes([10, 0, 0, j]))
+                    elif t == 28:
+                        rd = ("raw", bytes(15) + bytes([j]))
+                    elif t == 2:
+                        rd = ("name", [b"ns%d" % j] + q)
+                    elif t == 15:
+                        rd = ("mx", j, [b"mx"] + q)
+                    else:
+                        rd = ("raw", b"\x03abc")
+                    recs.append(G.RR(name, t, 1, 100 + j, rd))
+                secs = [[], [], []]
+                secs[si] = recs
+                other = [G.RR([b"other"] + q, 1, 1, 7, ("raw", b"\1\2\3\4"))] if rng.random() < 0.5 else []
+                secs[(si + 1) % 3] = other
+                if rng.random() < 0.5:
+                    secs[2] = list(secs[2])
+                    secs[2].insert(rng.randint(0, len(secs[2])), G.RR([], 41, 1232, 0x8000, ("opt", [(10, b"ab")] if rng.random() < 0.5 else [])))
+                b, _ = G.encode(rng, G.Msg(rng.getrandbits(16), 0x8180, q, 1, 1, an=secs[0], ns=secs[1], ar=secs[2]), layout)
+                a = H.decode_bytes(b)
+                if a is None:
+                    continue
+                bld = H.Builder(rng, a, set())
+                tags = [id(r) for r in bld.a.secs[si] if r.t != G.T_OPT]
+                dset = set(tags[j] for j in sub if j < len(tags))
+                bld.walk_op(si=si, mode="delete", incl=rng.random() < 0.5, delete_set=dset)
+                bld.walk_op(si=si, mode="read", incl=True)
+                cases.append(self.finish(k, "P," + hx(b), bld, "delete-%d" % n))
+                k += 1
+        # the question
+        for layout in ("none", "greedy"):
+            for _ in range(6):
+                b, _, _ = G.rand_valid_packet(rng, layout=layout)
+                a = H.decode_bytes(b)
+                if a is None:
+                    continue
+                bld = H.Builder(rng, a, set())
+                bld.question_walk_op("X")
+                bld.question_walk_op("read")
+                cases.append(self.finish(k, "P," + hx(b), bld, "delete-question"))
+                k += 1
+        return cases
+
+    def nontrivial(self, case, io):
+        return hash(case.line) if any("X=OK" in str(s.expect_out) for s in case.meta["steps"]) else None
+
+
+REGISTRY = {"C08": C08, "C09": C09, "C10": C10, "C11": C11, "C01": C01, "C18": C18, "C12": C12, "C03": C03, "C04": C04, "C05": C05, "C13": C13, "C14": C14}
